@@ -140,6 +140,31 @@ func setup() {
 		{"dilithiumjs.DilithiumVerify", func() string { return fmt.Sprint(dilithiumjs.DilithiumVerify(dMsg, hexSig, hexPK)) }},
 		{"xmssjs.XMSSVerify", func() string { return fmt.Sprint(xmssjs.XMSSVerify(string(xMsg), hexXSig, hexXPK)) }},
 	}
+	// related-input variants: same call with an input that shares a prefix / a component with the fixture
+	// (a cache keyed on part of its input answers these from the wrong entry)
+	dPK2 := dPK
+	dPK2[40] ^= 0x10 // same rho, different t1
+	xPK2 := xPK
+	xPK2[50] ^= 1 // same descriptor and root, different public seed
+	xPK3 := xPK
+	xPK3[10] ^= 1 // same descriptor, different root
+	dMsg2 := append([]byte(nil), dMsg...)
+	dMsg2[0] ^= 1
+	addrD2 := addrD
+	addrD2[19] ^= 1
+	ops = append(ops,
+		op{"dilithium.Verify(pk: same rho, t1 changed)", func() string { return fmt.Sprint(dilithium.Verify(dMsg, dSig, &dPK2)) }},
+		op{"dilithium.Verify(other message)", func() string { return fmt.Sprint(dilithium.Verify(dMsg2, dSig, &dPK)) }},
+		op{"dilithium.Open(pk: same rho, t1 changed)", func() string { return digest(dilithium.Open(dSM, &dPK2)) }},
+		op{"xmss.Verify(pk: seed changed)", func() string { return fmt.Sprint(xmss.Verify(xMsg, xSig, xPK2)) }},
+		op{"xmss.Verify(other message)", func() string { return fmt.Sprint(xmss.Verify(dMsg, xSig, xPK)) }},
+		op{"GetDilithiumAddressFromPK(same rho, t1 changed)", func() string { return digest(dilithium.GetDilithiumAddressFromPK(dPK2)) }},
+		op{"GetXMSSAddressFromPK(root changed)", func() string { return digest(xmss.GetXMSSAddressFromPK(xPK3), xmss.GetLegacyXMSSAddressFromPK(xPK3)) }},
+		op{"dilithiumjs.DilithiumVerify(other message, same signature)", func() string { return fmt.Sprint(dilithiumjs.DilithiumVerify(dMsg2, hexSig, hexPK)) }},
+		op{"dilithiumjs.GetDilithiumAddressFromPK/IsValid", func() string {
+			return digest(dilithiumjs.GetDilithiumAddressFromPK(hexPK), dilithiumjs.IsValidDilithiumAddress(hex.EncodeToString(addrD2[:])), xmssjs.IsValidXMSSAddress(hex.EncodeToString(addrX[:])), xmssjs.GetXMSSAddressFromPK(hexXPK))
+		}},
+	)
 	for i := range ops {
 		f := ops[i].f
 		ops[i].f = func() string { return call(f) }
@@ -326,7 +351,7 @@ func main() {
 	nops := len(ops)
 	npairs := nops * (nops + 1) / 2
 	ck := &drv.Check{Property: "C15", Level: "model_checking",
-		Rule: "controlled-scheduler exploration: every unordered pair of the 23 operations (incl. an operation with itself) on 2 managed threads and selected triples on 3, all interleavings at instrumented conflicting accesses / lock operations with preemption bound 0,1,2 (conflict-set fix point), " +
+		Rule: "controlled-scheduler exploration: every unordered pair of the 32 operations (incl. an operation with itself) on 2 managed threads and selected triples on 3, all interleavings at instrumented conflicting accesses / lock operations with preemption bound 0,1,2 (conflict-set fix point), " +
 			"each schedule re-run from the initial state; every sequential history of length <= 2 (quick) / <= 3 (thorough) in a fresh process; the same scenario bodies free-running under the race detector in a separate -race build; a built-in canary (racy lazy table, lock-protected check-then-act, correct sync.Once) instrumented by the same instrumenter. " +
 			"oracle: result(call) == result of the same call alone in a fresh process; inputs unchanged; no DATA RACE. non-trivial = a scenario with at least one preemptive schedule, a history of length >= 2, or a race-pass pair",
 		Assumptions: []string{"sequentially consistent interleavings at statement granularity; Go's weaker memory model is covered by requiring the same bodies to be race-free in the free-running -race pass (DRF => SC)",
